@@ -82,7 +82,9 @@ def run_mt(run, lib, mode, nthreads, ncalls, arg, ini_text, tag, exe=None, timeo
 
 
 SITE_KIND = {"snoopy_tsrm_ctor": "c", "snoopy_tsrm_dtor": "d", "snoopy_tsrm_getCurrentThreadRepoEntry": "e",
-             "snoopy_tsrm_get_threadCount": "n", "snoopy_tsrm_doesThreadRepoEntryExist": "x"}
+             "snoopy_tsrm_get_threadCount": "n", "snoopy_tsrm_doesThreadRepoEntryExist": "x",
+             # a libc call made with the mutex held (lock; private work; unlock): the same lock boundaries as an entry lookup
+             "snoopy_tsrm_localtime_r": "e"}
 
 
 def calibrate(run, lib, ini_text, tag="calib"):
